@@ -107,6 +107,11 @@ def gen_c15(rng: random.Random, sid: str, thorough: bool) -> dict:
             src, port = rng.choice(['10.0.0.9', '10.0.0.23']), rng.choice([5353, 5353, 40000])
             first = bytearray(rng.choice(valid[:nq]))
             first[2] |= 0x02
+            if rng.random() < 0.35:
+                # a continuation packet (known answers, no question) that overtook the packet carrying the questions -- or nothing at all
+                sp0 = rng.choice(svcs)
+                first = bytearray(wire.build(flags=0x0200, answers=[] if rng.random() < 0.3 else
+                                             [(sp0['type'], wire.T_PTR, 1, rng.choice([4500, 10]), 'Other.' + sp0['type'])]))
             t += rng.choice([0, 5, 300, 1000])
             steps += [{'op': 'at', 't': t}, {'op': 'raw', 'data': bytes(first).hex(), 'src': src, 'port': port}]
             for _k in range(rng.choice([0, 1, 1, 2])):
@@ -156,6 +161,20 @@ def gen_c15(rng: random.Random, sid: str, thorough: bool) -> dict:
     steps += [{'op': 'at', 't': t}, {'op': 'expect_added', 'name': CANARY}]
     t += 1000
     steps.append({'op': 'at', 't': t})
+    if rng.random() < 0.5:
+        # ... and keeps working: an instance whose name has characters outside ASCII (lower() and casefold() differ on the sharp
+        # s) is learned, its record comes up for refresh at 75 % of its TTL and beyond, and a new announcement is still delivered
+        late = rng.choice(['B\u00fcro Stra\u00dfe 5.', '\u01c5emal \ufb01.', 'Caf\u00e9.']) + REMOTE_T
+        steps += [{'op': 'resp', 'recs': [{'rec': [REMOTE_T, wire.T_PTR, 1, late], 'ttl': 4500}]}]
+        t += 200
+        steps += [{'op': 'at', 't': t}, {'op': 'expect_added', 'name': late}]
+        t += rng.choice([3400000, 3900000, 4400000])
+        canary2 = 'Canary Two.' + REMOTE_T
+        steps += [{'op': 'at', 't': t}, {'op': 'resp', 'recs': [{'rec': [REMOTE_T, wire.T_PTR, 1, canary2], 'ttl': 4500}]}]
+        t += 200
+        steps += [{'op': 'at', 't': t}, {'op': 'expect_added', 'name': canary2}]
+        t += 1000
+        steps.append({'op': 'at', 't': t})
     layout = rng.choice(['single', 'split', 'dual'])
     # on the dual-stack layout the peers are IPv6 hosts (4-tuple source addresses with a scope id) most of the time
     return {'id': sid, 'seed': rng.randint(0, 10 ** 9), 'steps': steps, 'layout': layout, 'rand': rng.choice([None, None, 'lo', 'hi']),
